@@ -41,6 +41,8 @@ def gen_expr(rng):
         e = Op("OAdd", [e, e]); tags.append("self-add")
     elif depth2 < 0.7:
         z = tt(rng, [rng.choice([2, 3])]); e = Op("OKron", [e, z]); N = N + [c.shape[1] for c in z.cores]; tags.append("OKron")
+    elif depth2 < 0.76:          # the accumulation idiom: None ** x and x ** None keep the graph of x
+        e = Op("OKron", [expr.NoneE(), e]) if rng.random() < 0.6 else Op("OKron", [e, expr.NoneE()]); tags.append("OKron-None")
     d = len(N)
     if rng.random() < 0.15:          # multiplied by a scalar that is itself computed from (tracked) TT operands
         Ns = [rng.choice([2, 3]) for _ in range(rng.choice([1, 2]))]
